@@ -22,7 +22,7 @@ import tlz as toolz
 
 import dask
 from dask import config
-from dask._task_spec import GraphNode
+from dask._task_spec import GraphNode, Task, TaskRef
 from dask.base import clone_key, flatten, is_dask_collection
 from dask.core import keys_in_tasks, reverse_dict
 from dask.tokenize import normalize_token, tokenize
@@ -242,7 +242,15 @@ class Layer(Graph):
             nonlocal is_leaf
 
             typ = type(o)
-            if typ is tuple and o and callable(o[0]):
+            if isinstance(o, (GraphNode, TaskRef)):
+                # task objects: rewrite the references they hold
+                deps = {o.key} if isinstance(o, TaskRef) else o.dependencies
+                subs = {k: clone_key(k, seed) for k in deps if k in keys}
+                if not subs:
+                    return o
+                is_leaf = False
+                return o.substitute(subs)
+            elif typ is tuple and o and callable(o[0]):
                 return (o[0],) + tuple(clone_value(i) for i in o[1:])
             elif typ is list:
                 return [clone_value(i) for i in o]
@@ -266,8 +274,13 @@ class Layer(Graph):
                 is_leaf = True
                 value = clone_value(value)
                 if bind_to is not None and is_leaf:
-                    value = (chunks.bind, value, bind_to)
+                    if isinstance(value, GraphNode):
+                        value = Task(key, chunks.bind, value, TaskRef(bind_to))
+                    else:
+                        value = (chunks.bind, value, bind_to)
                     bound = True
+                elif isinstance(value, GraphNode):
+                    value = value.substitute({}, key=key)
 
             dsk_new[key] = value
 
